@@ -1,4 +1,208 @@
-import PysnarkModel.Model.Prog
+import PysnarkModel.Lemmas.Bits
+import PysnarkModel.Lemmas.Pack
+import PysnarkModel.Driver.ProtoPack
+/-!
+# C16 — bit decomposition and packing round-trip at the requested width
+
+Part (a): `to_bits(n)` / `from_bits` / `assert_positive(n)`.
+* `C16_bits_roundtrip`: an accepted `to_bits(n)` (error checks on) means `0 ≤ v < 2^n`, returns exactly
+  `n` bits whose values are the binary digits of `v`, and `from_bits` of them has value `v` — for EVERY
+  `n`, whatever the global bit length is;
+* `C16_bits_accept`: every `0 ≤ v < 2^n` is accepted (no guard);
+* `C16_bits_reject`: values outside `[0, 2^n)` are rejected by `to_bits(n)` and `assert_positive(n)`;
+* `C16_width_enforced`: in-circuit, ANY assignment satisfying what `to_bits(n)` / `assert_positive(n)`
+  emitted evaluates the operand into `[0, 2^n)` — the requested width, not the global one (the model
+  follows the repaired `assert_positive`, see C03).
+-/
 namespace Pysnark
-example : True := trivial
+
+/-- **round trip** at the requested width `n` (independent of `s.bitlength`) -/
+theorem C16_bits_roundtrip {x : LinComb} {n : Nat} {s s' : St} {bs : List LinComb}
+    (hi : s.ignoreErrors = false) (h : toBits x (some n) s = .ok (bs, s')) :
+    0 ≤ x.value ∧ x.value < 2 ^ n ∧ bs.length = n ∧
+    bs.map (·.value) = Py.bitsOf x.value n ∧
+    fbValue (fromBits bs) = x.value ∧
+    (1 ≤ n → ∃ y, fromBits bs = some y ∧ y.value = x.value) ∧
+    (n = 0 → fromBits bs = none ∧ x.value = 0) := by
+  obtain ⟨h0, h1, hv⟩ := toBits_value hi h
+  simp only [Option.getD_some] at h1 hv
+  have hl : bs.length = n := by
+    have := congrArg List.length hv
+    simpa [bitsOf_length] using this
+  have hfb : fbValue (fromBits bs) = x.value := by
+    rw [fbValue_fromBits, hv, bitsVal_bitsOf n _ 0 h0 h1]; simp
+  refine ⟨h0, h1, hl, hv, hfb, ?_, ?_⟩
+  · intro hn
+    cases hb : fromBits bs with
+    | none =>
+      have : bs = [] := by cases bs with
+        | nil => rfl
+        | cons b t => simp [fromBits] at hb
+      subst this; simp at hl; omega
+    | some y => rw [hb] at hfb; exact ⟨y, rfl, hfb⟩
+  · rintro rfl
+    have : bs = [] := List.eq_nil_of_length_eq_zero hl
+    subst this
+    refine ⟨rfl, ?_⟩
+    simp at h1; omega
+
+/-- every in-range value is accepted (outside guarded regions) -/
+theorem C16_bits_accept {x : LinComb} {n : Nat} {s : St} (hg : s.guard = none)
+    (h0 : 0 ≤ x.value) (h1 : x.value < 2 ^ n) : ∃ bs s', toBits x (some n) s = .ok (bs, s') :=
+  toBits_accept (bits := some n) hg h0 h1
+
+/-- values outside `[0, 2^n)` are rejected, by the decomposition and by the non-negativity assertion -/
+theorem C16_bits_reject {x : LinComb} {n : Nat} {s : St} (hi : s.ignoreErrors = false)
+    (h : x.value < 0 ∨ 2 ^ n ≤ x.value) :
+    toBits x (some n) s = .error .assertion ∧ assertPositive x (some n) s = .error .assertion :=
+  ⟨toBits_reject (bits := some n) hi h, assertPositive_reject (bits := some n) hi h⟩
+
+/-- an accepted `assert_positive(n)` means `0 ≤ v < 2^n` (run-time side of "the width given is the
+width enforced") -/
+theorem C16_assertPositive_runtime {x : LinComb} {n : Nat} {s s' : St} {u : Unit}
+    (hi : s.ignoreErrors = false) (h : assertPositive x (some n) s = .ok (u, s')) :
+    0 ≤ x.value ∧ x.value < 2 ^ n := assertPositive_value (bits := some n) hi h
+
+/-- **the width given is the width enforced in-circuit**: any assignment `w` (adversarial prover)
+satisfying the constraints emitted by `to_bits(n)` resp. `assert_positive(n)` evaluates the operand
+to the embedding of a natural below `2^n`; for `to_bits` the returned wires are its `n` binary digits -/
+theorem C16_width_enforced {p : ℕ} [Fact p.Prime] {x : LinComb} {n : Nat} {s : St} {w : Wire → Int}
+    (hp : s.p = p) (hg : s.guard = none) (hx : x.lc.WF) (h1 : w .one = 1) :
+    (∀ bs s', toBits x (some n) s = .ok (bs, s') → NewSat s s' w →
+      bs.length = n ∧ InRange p n (ev p w x.lc) ∧
+      ∃ S : ℕ, S < 2 ^ n ∧ ev p w x.lc = (S : ZMod p) ∧
+        ∀ (i : Nat) (hi : i < bs.length), ev p w bs[i].lc = ((S / 2 ^ i % 2 : ℕ) : ZMod p)) ∧
+    (∀ u s', assertPositive x (some n) s = .ok (u, s') → NewSat s s' w → InRange p n (ev p w x.lc)) := by
+  constructor
+  · intro bs s' h hw
+    obtain ⟨hl, S, hS, hSe, hbit⟩ := toBits_sound hp hg hx h h1 hw
+    exact ⟨hl, ⟨S, hS, hSe⟩, S, hS, hSe, hbit⟩
+  · intro u s' h hw
+    exact assertPositive_sound hp hg hx h h1 hw
+
+/-! non-vacuity: width 3 with global bit length 8: 5 is decomposed into [1,0,1]; 9 is rejected -/
+example : (match (do let x ← privVal 5; let bs ← toBits x (some 3); pure (bs.map LinComb.value, fbValue (fromBits bs)))
+      (St.init 97 8 8) with
+    | .ok ((vs, v), s1) => vs == [1, 0, 1] && v == 5 && s1.cons.length == 4 | _ => false) = true := by
+  decide +kernel
+example : (match (do let x ← privVal 9; toBits x (some 3)) (St.init 97 8 8) with
+    | .error .assertion => true | _ => false) = true := by decide +kernel
+example : (match (do let x ← privVal 9; assertPositive x (some 3)) (St.init 97 8 8) with
+    | .error .assertion => true | _ => false) = true := by decide +kernel
+
+/-! # Part (b): the packers of `pysnark/pack.py` (`Model/Pack.lean`)
+
+`Schema` = `PackBool | PackIntMod(m) | PackList([...]) | PackRepeat(s, times)`; `packV`/`unpackV` are
+`pack(val)` / `unpack(bits, pos)`.  `WellTyped sch v`: `v` is a plain value of the shape `sch` describes,
+and `sch` contains no `PackIntMod(m)` with `m < 2`, no `PackList([])`, no `PackRepeat(_, 0)` — for
+those `pack.py` itself fails (`C16_cex_pack_mod1`, `C16_cex_pack_empty`).
+
+Recorded deviations (the property as worded is NOT true of `pack.py`):
+* C16-pack-bool: `PackBool().pack(LinCombBool)` raises `NotImplementedError` (`C16_cex_pack_bool`);
+* C16-pack-bool (second half): `PackIntMod.unpack` of the bits produced by `PackIntMod.pack(LinComb)`
+  returns the right VALUE but through the plain branch: no `assert_lt(mod)` is emitted, and `pack`
+  itself only enforces `< 2^bitlen` (`C16_pack_secret_partial`, `C16_cex_pack_secret_range`). -/
+
+/-- `bitlen` is additive -/
+theorem C16_bitlen_additive (a b : List Schema) (s : Schema) (t : Nat) :
+    (Schema.list (a ++ b)).bitlen = (Schema.list a).bitlen + (Schema.list b).bitlen ∧
+    (Schema.list a).bitlen = (a.map Schema.bitlen).sum ∧
+    (Schema.rep s t).bitlen = s.bitlen * t ∧ Schema.bool.bitlen = 1 ∧
+    ∀ m, (Schema.intMod m).bitlen = Py.bitLength ((m : Int) - 1) := by
+  refine ⟨by simp [Schema.bitlenL_append], by simp [Schema.bitlenL_eq_sum], by simp, by simp, ?_⟩
+  intro m; simp [modBits]
+
+/-- **plain round trip**: for a well-typed plain value, `pack` returns exactly `bitlen` bits and does
+not touch the tracer state; `unpack` of these bits — at any position of a longer bit list — returns
+the original value, again without touching the state -/
+theorem C16_pack_roundtrip_plain {sch : Schema} {v : Val} (h : WellTyped sch v) :
+    ∃ bits : List Val, (∀ s, packV sch v s = .ok (.list bits, s)) ∧ bits.length = sch.bitlen ∧
+      (∀ (rest : List Val) (s : St), unpackV sch (bits ++ rest) 0 s = .ok (v, s)) ∧
+      (∀ (pre rest : List Val) (s : St), unpackV sch (pre ++ bits ++ rest) pre.length s = .ok (v, s)) := by
+  obtain ⟨bits, hp, hl, hu⟩ := roundTrip_plain sch v h
+  refine ⟨bits, ?_, hl, ?_, hu⟩
+  · intro s
+    unfold packV
+    rw [bind_pure_ok (hp s)]; rfl
+  · intro rest s
+    simpa using hu [] rest s
+
+/-- **out-of-range plain values are rejected** with `ValueError` -/
+theorem C16_pack_reject {m : Nat} {c : Int} (h : c < 0 ∨ c ≥ m) (s : St) :
+    packV (.intMod m) (.int c) s = .error .value := packIntMod_reject h s
+
+/-- `PackBool` on a `LinComb`: identity both ways -/
+theorem C16_pack_bool_lc (x : LinComb) (pre rest : List Val) (s : St) :
+    packV .bool (.lc x) s = .ok (.list [.lc x], s) ∧
+    unpackV .bool (pre ++ [.lc x] ++ rest) pre.length s = .ok (.lc x, s) := packBool_lc x pre rest s
+
+/-- **secret `PackIntMod` round trip, value level only** (`_partial`): with error checks on, an accepted
+`pack` of a `LinComb` means `0 ≤ v < 2^bitlen` (NOT `v < mod`), yields `bitlen` `LinCombBool` bits
+carrying the binary digits, and `unpack` returns a `LinComb` with the original VALUE — through the
+plain branch: the state `st` is unchanged, i.e. no `assert_lt(mod)` and no other constraint -/
+theorem C16_pack_secret_partial {m : Nat} (hm : 2 ≤ m) {x : LinComb} {s s' : St} {bits : List Val}
+    (hi : s.ignoreErrors = false) (h : packV (.intMod m) (.lc x) s = .ok (.list bits, s')) :
+    0 ≤ x.value ∧ x.value < 2 ^ (Schema.intMod m).bitlen ∧
+    ∃ bs : List LinComb, bits = bs.map .lcb ∧ bs.length = (Schema.intMod m).bitlen ∧
+      bs.map (·.value) = Py.bitsOf x.value (Schema.intMod m).bitlen ∧
+      ∀ (pre rest : List Val) (st : St), ∃ y : LinComb,
+        unpackV (.intMod m) (pre ++ bits ++ rest) pre.length st = .ok (.lc y, st) ∧ y.value = x.value := by
+  simpa using packIntMod_secret hm hi h
+
+/-- every secret `0 ≤ v < 2^bitlen` is accepted by `PackIntMod.pack` outside guarded regions -/
+theorem C16_pack_secret_accept {m : Nat} {x : LinComb} {s : St} (hg : s.guard = none)
+    (h0 : 0 ≤ x.value) (h1 : x.value < 2 ^ (Schema.intMod m).bitlen) :
+    ∃ bits s', packV (.intMod m) (.lc x) s = .ok (.list bits, s') :=
+  packIntMod_secret_accept hg h0 (by simpa using h1)
+
+/-! ## closed counterexamples (recorded deviations) -/
+
+/-- C16-pack-bool: packing a secret boolean raises `NotImplementedError` (for every `b`, `s`) -/
+theorem C16_cex_pack_bool_all (b : LinComb) (s : St) : packV .bool (.lcb b) s = .error .notimpl :=
+  (packBool_lcb b s).1
+
+theorem C16_cex_pack_bool :
+    (match (do let b ← privValBool 1; packV .bool (.lcb b)) (St.init 97 8 8) with
+      | .error .notimpl => true | _ => false) = true := by decide +kernel
+
+/-- the secret round trip does not range-check: `PackIntMod(5)` accepts the secret 7 (≥ mod, < 2^3),
+and `unpack` returns value 7 adding no constraint (4 constraints = 3 booleanity + 1 sum, all from
+`to_bits`); a plain 7 is rejected -/
+theorem C16_cex_pack_secret_range :
+    (match (do let x ← privVal 7
+               let b ← packB (.intMod 5) (.lc x)
+               let s1 ← getSt
+               let r ← unpackV (.intMod 5) b 0
+               pure (r, s1.cons.length)) (St.init 97 8 8) with
+      | .ok ((.lc y, n1), s) => y.value == 7 && n1 == 4 && s.cons.length == 4 | _ => false) = true ∧
+    (match packV (.intMod 5) (.int 7) (St.init 97 8 8) with | .error .value => true | _ => false) = true := by
+  decide +kernel
+
+/-- `PackIntMod(1)` (bit length 0): unpacking its own (empty) packing raises `IndexError` -/
+theorem C16_cex_pack_mod1 :
+    (match (do let b ← packB (.intMod 1) (.int 0); unpackV (.intMod 1) b 0) (St.init 97 8 8) with
+      | .error .index => true | _ => false) = true := by decide +kernel
+
+/-- `PackList([])` / `PackRepeat(_, 0)` cannot pack their only value `[]`: `reduce()` of an empty
+sequence raises `TypeError` -/
+theorem C16_cex_pack_empty :
+    (match packV (.list []) (.list []) (St.init 97 8 8) with | .error .type => true | _ => false) = true ∧
+    (match packV (.rep .bool 0) (.list []) (St.init 97 8 8) with | .error .type => true | _ => false) = true := by
+  decide +kernel
+
+/-- `PackRepeat(s, times).pack` packs ALL elements given, not `times` of them: 3 elements for
+`times = 2` give 3 bits while `bitlen() = 2` -/
+theorem C16_cex_pack_repeat_len :
+    (match packV (.rep .bool 2) (.list [.int 1, .int 0, .int 1]) (St.init 97 8 8) with
+      | .ok (.list bits, _) => bits.length == 3 && (Schema.rep .bool 2).bitlen == 2 | _ => false) = true := by
+  decide +kernel
+
+/-! non-vacuity of the plain round trip, through the schema parser -/
+example : (match ProtoPack.schema? "L(B,M5,R2(M3))" with
+    | some sch =>
+      let v : Val := .list [.int 1, .int 4, .list [.int 2, .int 0]]
+      (match (do let b ← packB sch v; let r ← unpackV sch b 0; pure (b.length, r)) (St.init 97 8 8) with
+        | .ok ((n, r), s) => r.same v && n == sch.bitlen && n == 8 && s.cons.length == 0 | _ => false)
+    | none => false) = true := by decide +kernel
+
 end Pysnark
